@@ -74,6 +74,9 @@ def check(case) -> Result:
     thr_si = U.si(kind, *thr_pair)
     op = st_['op']
     margin = np.abs(series - thr_si) / scale
+    # cross-unit comparisons of the library carry an absolute floor (1e-300) for subnormal magnitudes: differences
+    # below it are 'rounding' in the sense of C05 and are not judged
+    margin = np.where(np.abs(series - thr_si) <= 1e-290, 0.0, margin)
     tie_exact = st_.get('exact_tie') is not None
     truth = [bool(_cmp(op, series[k], thr_si)) for k in range(u.n)]
     if tie_exact:
